@@ -118,6 +118,10 @@ func Run(it Interp, r io.Reader, w io.Writer) {
 			fmt.Fprintln(out, op+" => "+res)
 		}
 	}
+	// an interpreter that holds external resources (temp directories, goroutines) may release them at EOF
+	if c, ok := it.(interface{ Close() }); ok {
+		c.Close()
+	}
 }
 
 func safeStep(it Interp, toks []string, op string) (res string) {
